@@ -145,6 +145,47 @@ _replay.BUILD_HOOKS = getattr(_replay, 'BUILD_HOOKS', {})
 _replay.BUILD_HOOKS['frames'] = _build_frames
 
 
+# ---- framing has no memory (added after seeding round 7) --------------------------------------------------------
+@contract('bitcoin.messages:MsgSerializable.to_bytes', name='reframe_after_edit', prop=P)
+def reframe_after_edit(self: Any, *, fresh: Any):
+    """BOUNDED: a message object that was framed before and whose fields were replaced since (shorter and longer
+    vectors, strings and payloads among the replacements) frames to exactly the bytes of a never-framed message with
+    the same field values, with the prescribed header and payload layout - framing keeps no state between calls"""
+    option(bounded=400, chains=True)
+    ensures(result == fresh.to_bytes() and result == frame(chain_magic(CHAIN), self.command, result[24:])
+            and payload_as_prescribed(self, result[24:]) and self.to_bytes() == result)
+
+
+def _same_type_pair(seed):
+    import random
+    rng = random.Random(seed)
+    a = _rand_msg(rng)
+    for _ in range(2000):
+        b = _rand_msg(rng)
+        if type(b) is type(a):
+            return a, b
+    return a, a
+
+
+def _framed_then_edited(seed, fresh):
+    """fresh=0: message a is framed (twice), then given every field value of message b of the same type;
+    fresh=1: b itself, never framed"""
+    import copy
+    a, b = _same_type_pair(seed)
+    if fresh:
+        return b
+    a.to_bytes()
+    a.to_bytes()
+    for k, v in list(vars(b).items()):
+        setattr(a, k, copy.deepcopy(v))
+    return a
+
+
+_replay.GENERATORS['reframe_after_edit'] = lambda rng, chain=None: (lambda sd: {
+    'self': {'__obj__': 'contracts.c18:_framed_then_edited', 'args': [sd, 0]},
+    'fresh': {'__obj__': 'contracts.c18:_framed_then_edited', 'args': [sd, 1]}})(rng.getrandbits(32))
+
+
 # ---- exact frames of the messages that carry protocol objects (over the C01 serialiser contracts) ----------------
 from contracts.c01 import tx_ser, block_ser, header_ser
 from bitcoin.messages import msg_tx, msg_block, msg_headers
